@@ -1,6 +1,6 @@
 (* C07 — property statements only. *)
 From Coq Require Import List ZArith Reals.
-From UV Require Import Num M_sgd T_sgd.
+From UV Require Import Num M_sgd M_sgdg T_sgd T_sgdg.
 Import ListNotations.
 Local Open Scope R_scope.
 
@@ -89,3 +89,23 @@ Theorem C07_run_count : forall (a b gamma : R) mo nv (alpha0 : R) es i s (N : na
   nth i (s_next RNum (run_from RNum a b gamma alpha0 mo nv (Z.of_nat N) es N 0 s)) 0 = p + INR (visits RNum p N 0 p) * p.
 Proof. exact run_visits. Qed.
 Print Assumptions C07_run_count.
+
+(* the generic-output-metric optimiser: with Euclidean output its coefficients are the same gradient terms,
+   the attractive one up to the factor d/(d + 1e-6) of its regulariser (it multiplies the unit-free gradient of
+   the distance, hence the extra factor d), the repulsive one with regulariser 1e-6*d in place of 0.001 *)
+Theorem C07_generic_step : forall a b gamma d, (0 < d)%R -> (0 <= a)%R ->
+  gattr_coeff RNum a b d = ((- 2 * a * b * Rpower d (2 * b - 2) / (1 + a * Rpower d (2 * b))) * d * (d / (d + / 1000000)))%R /\
+  grep_coeff RNum a b gamma d = (2 * gamma * b / ((d + / 1000000) * (1 + a * Rpower d (2 * b))))%R.
+Proof. intros a b gamma d Hd Ha. split; [exact (generic_attr_formula a b d Hd Ha) | exact (generic_rep_formula a b gamma d Hd Ha)]. Qed.
+Print Assumptions C07_generic_step.
+
+Theorem C07_generic_frame : forall om (a b gamma : R) nv (alpha n : R) es i s,
+  eT RNum (s_emb RNum (gedges_from RNum om a b gamma alpha false nv n i es s)) = eT RNum (s_emb RNum s).
+Proof. exact generic_tail_frame. Qed.
+Print Assumptions C07_generic_frame.
+
+(* parametric variant: an edge of membership w is replicated floor(N*w) times *)
+Theorem C07_replication : forall (N w : R), (0 <= N * w)%R ->
+  (IZR (replication RNum N w) <= N * w < IZR (replication RNum N w) + 1)%R.
+Proof. exact replication_bounds. Qed.
+Print Assumptions C07_replication.
